@@ -16,7 +16,7 @@ INVARIANTS %(invs)s
 
 CONCRETE = {"dq": ['"'], "sq": ["'"], "bs": ["\\"], "pct": ["%"], "lb": ["{"], "rb": ["}"], "nl": ["\n"],
             "na": ["é", "漢", "😀", "ß"], "n": ["n"], "v": ["v"], "q": ["b", "t", "u", "x", "z", "Q", "d", "s", "0"],
-            "sp": [" "], "P1": ["{{ex.p1}}"], "P2": ["{{ ex.p2 }}"], "V1": ["VAL1"], "V2": ["VAL2"], "N0": ["null"]}
+            "sp": [" "], "cc": ["\x07", "\x1b", "\x0b", "\x01", "\x7f", "\x08"], "ap": ["\U000e0067", "\U0001f3f4", "\U000e007f"], "P1": ["{{ex.p1}}"], "P2": ["{{ ex.p2 }}"], "V1": ["VAL1"], "V2": ["VAL2"], "N0": ["null"]}
 
 
 def concretize(symbols, choice):
@@ -30,7 +30,7 @@ def render_pair(s, expect, rnd):
 
 
 def klass(s):
-    cs = sorted(set(c for c in s if c in ("dq", "bs", "pct", "nl", "lb", "rb", "sq", "na")))
+    cs = sorted(set(c for c in s if c in ("dq", "bs", "pct", "nl", "lb", "rb", "sq", "na", "cc", "ap")))
     return "+".join(cs) or "plain"
 
 
@@ -106,8 +106,8 @@ def run(tier):
         "states": sum(r.distinct for r in rs), "transitions": sum(r.generated for r in rs),
         "traces_validated_against_impl": len(rows),
         "evaluations": len(rows), "distinct_nontrivial": nontriv,
-        "rule": "every string of length <= %d over 12 character classes (quotes, backslash, %%, braces, newline, non-ASCII, the "
-                "letters n and v, other letters, space) plus 2 placeholders in messages, with every subset of placeholder "
+        "rule": "every string of length <= %d over 14 character classes (quotes, backslash, %%, braces, newline, non-ASCII, control, "
+                "astral non-printable, the letters n and v, other letters, space) plus 2 placeholders in messages, with every subset of placeholder "
                 "properties present on the focus node (%d cases enumerated by TLC, the design chain proved equal to the "
                 "expectation on each%s); each concretised and placed as message / profile name / validation name / value of "
                 "in, containsAll, containsSome (YAML-encoded by yaml.v3); profileName, sourceShapeName, resultMessage and the "
